@@ -19,7 +19,8 @@
      priority queue with Go's container/heap Init/Pop/Push transcribed and PROVED to be a priority queue for the
      code's `Less`, the writer's last-item / same-key / same-hash bookkeeping, the final flush; tied to the real
      `merge` by engine `hint`, incl. inputs with repeated chunk ids): for all sources that are non-empty and
-     strictly sorted by (hash, key) the merge ends normally (`C14_merge_total`; it panics iff some source is empty),
+     strictly sorted by (hash, key) the merge ends normally (`C14_merge_total`; sources WITHOUT items are skipped and the
+     merge never panics: `C14_merge_never_panics` — the repaired code),
      the output is strictly sorted with no key twice, contains only source items, and for every key the entry whose
      (file, offset) position is greatest (`C14_merge_greatest_position`, exactly those without position ties:
      `C14_merge_exact`); an item is reported to the collision table iff it is written and another key shares its
@@ -56,9 +57,12 @@ theorem C14_merge_total (srcs : List (Nat × List Item)) (hok : HintMerge.srcsOK
     ∃ out coll, HintMerge.kway HintMerge.goHeap srcs = .ok out coll :=
   HintMergeLemmas.merge_total HintMergeLemmas.goLaws srcs hok
 
-theorem C14_merge_panics_iff_empty_source (srcs : List (Nat × List Item)) :
-    HintMerge.kway HintMerge.goHeap srcs = .panic ↔ ∃ s ∈ srcs, s.2 = [] :=
-  HintMergeLemmas.merge_panic_iff HintMerge.goHeap srcs
+/-- the merge never panics; hint files without items are simply skipped (before /repo "fix: a hint file without items
+    made the merge panic" it panicked iff some source was empty: known_findings.txt C14/panic-empty-source) -/
+theorem C14_merge_never_panics (srcs : List (Nat × List Item)) :
+    HintMerge.kway HintMerge.goHeap srcs ≠ .panic ∧
+    HintMerge.kway HintMerge.goHeap srcs = HintMerge.kway HintMerge.goHeap (HintMergeLemmas.nonEmpty srcs) :=
+  ⟨HintMergeLemmas.merge_never_panics HintMerge.goHeap srcs, HintMergeLemmas.kway_nonEmpty HintMerge.goHeap srcs⟩
 
 /-- for each key: one entry, taken from a source, with the greatest (file, offset) position -/
 theorem C14_merge_greatest_position (srcs : List (Nat × List Item)) (hok : HintMerge.srcsOK srcs = true)
